@@ -12,6 +12,7 @@ import (
 	"fmt"
 	"os"
 	"path/filepath"
+	"strings"
 	"sync"
 	"sync/atomic"
 	"testing"
@@ -188,6 +189,17 @@ func rqIssue(ctl *SourceControl, c rqCase, dir string, nsamp int) error {
 		switch c.Arg {
 		case "start-badpath":
 			w.Path = "/proc/verif-no-such-dir/x"
+		case "start-nostatefile":
+			// a base path so long that the run directory (base/<date>/<run>) can still be made but the name of the
+			// experiment-state file in it exceeds PATH_MAX: the one I/O step of START that fails is the state file
+			p := filepath.Join(dir, "data")
+			for len(p) < 4050-201 {
+				p = filepath.Join(p, strings.Repeat("d", 200))
+			}
+			if n := 4050 - len(p) - 1; n > 0 {
+				p = filepath.Join(p, strings.Repeat("e", n))
+			}
+			w.Path = p
 		case "start-notypes":
 			w.WriteLJH22 = false
 		case "bogus":
@@ -251,7 +263,7 @@ func rqCases() []rqCase {
 	add("trigger-em", map[string]string{"valid": "any", "both-modes": "err", "noise": "err"})
 	add("pulselengths", map[string]string{"valid": "ok", "same": "ok", "zero": "err", "negative": "err", "pre-ge-samp": "err", "pre-too-small": "any", "huge": "any"})
 	add("projectors", map[string]string{"valid": "ok", "index-toolarge": "err", "index-negative": "err", "bad-base64": "err", "not-a-matrix": "err", "wrong-shape": "err", "mismatched": "err", "empty": "err"})
-	add("writecontrol", map[string]string{"start": "ok", "start-badpath": "err", "start-notypes": "any", "bogus": "err", "empty": "err", "pause": "any", "unpause": "any", "stop": "any"})
+	add("writecontrol", map[string]string{"start": "ok", "start-badpath": "err", "start-nostatefile": "err", "start-notypes": "any", "bogus": "err", "empty": "err", "pause": "any", "unpause": "any", "stop": "any"})
 	add("statelabel", map[string]string{"valid": "any", "empty": "err"})
 	add("comment", map[string]string{"valid": "ok", "empty": "err"})
 	add("coupling", map[string]string{"off": "ok", "on": "err", "fb2err": "err"})
